@@ -181,25 +181,47 @@ class OsProxy(types.ModuleType):
 
 
 class FaultyWriter(object):
+    """A file opened for writing as the store sees it: like io.BufferedWriter it keeps up to 8 KiB in user space;
+    buffered data reach the disk at flush / close (each transfer to the disk is a fault point with a drawn torn
+    prefix) and are LOST if the process dies or the write fails first."""
+
+    BUFSIZE = 8192
+
     def __init__(self, path, c):
         self.c = c
         self.rel = os.path.relpath(path, c.root)
         self.raw = _real_open(path, "wb", buffering=0)
         self.closed = False
+        self.failed = False
+        self.buf = b""
         c.point("after_truncate %s" % self.rel)
+
+    def _drain(self):
+        if self.buf and not self.failed:
+            data, self.buf = self.buf, b""
+            try:
+                self.c.write_point(self.raw, data, self.rel)
+            except BaseException:
+                self.failed = True
+                raise
 
     def write(self, data):
         data = bytes(data)
-        self.c.write_point(self.raw, data, self.rel)
+        self.buf += data
+        if len(self.buf) >= self.BUFSIZE:
+            self._drain()
         return len(data)
 
     def flush(self):
-        pass
+        self._drain()
 
     def close(self):
         if not self.closed:
             self.closed = True
-            self.raw.close()
+            try:
+                self._drain()
+            finally:
+                self.raw.close()
 
     def __enter__(self):
         return self
